@@ -22,18 +22,40 @@ def nm(k):
     return "serial" if k == 0 else f"m{k}"     # name 0 = Serial's default names
 
 
+def fdt():
+    return torch.get_default_dtype()
+
+
 def build_conn(spec, B, dt):
     d = spec.get("delay")
-    c = LinearDense(tuple(spec["in"]), tuple(spec["out"]), dt,
-                    synapse=DeltaCurrent.partialconstructor(spec["charge"]),
+    syn = spec.get("syn")
+    if syn:     # any synapse class of inferno.neural (oracle-only stream)
+        ctor = getattr(_neural, syn["cls"]).partialconstructor(**syn["kw"])
+    else:
+        ctor = DeltaCurrent.partialconstructor(spec["charge"])
+    c = LinearDense(tuple(spec["in"]), tuple(spec["out"]), dt, synapse=ctor,
                     bias=spec.get("bias") is not None,
                     delay=(None if d is None else d["max"] * dt), batch_size=B)
-    c.weight = torch.tensor(spec["W"], dtype=torch.float64)
+    c.weight = torch.tensor(spec["W"], dtype=fdt())
     if spec.get("bias") is not None:
-        c.bias = torch.tensor(spec["bias"], dtype=torch.float64)
+        c.bias = torch.tensor(spec["bias"], dtype=fdt())
     if d is not None:
-        c.delay = torch.tensor(d["D"], dtype=torch.float64) * dt
+        c.delay = torch.tensor(d["D"], dtype=fdt()) * dt
     return c
+
+
+RECORDS = ("spike_", "current_", "pos_current_", "neg_current_")
+
+
+def records(syn):
+    """the synapse's stored histories (RecordTensors), by attribute name"""
+    from inferno import RecordTensor
+    out = {}
+    for a in RECORDS:
+        r = getattr(syn, a, None)
+        if isinstance(r, RecordTensor):
+            out[a] = r
+    return out
 
 
 def adapt_attr(n):
@@ -98,8 +120,25 @@ def custom_combine(tensors, **kwargs):
     return 2 * list(tensors.values())[0]
 
 
+class Parallel(_neural.Layer):
+    """hand-written Layer subclass: independent connection -> neuron lanes sharing a name; wiring() is the identity
+    and hands back the very dict it received (a valid wiring)"""
+
+    def __init__(self, lanes):
+        _neural.Layer.__init__(self)
+        for name, conn, neur in lanes:
+            self.add_connection(name, conn)
+            self.add_neuron(name, neur)
+            self.add_cell(name, name)
+
+    def wiring(self, inputs, **kwargs):
+        return inputs
+
+
 def build_layer(case, conns, neurs):
     kind = case["kind"]
+    if kind == "parallel":
+        return Parallel([(nm(s["name"]), c, n) for s, c, n in zip(case["conns"], conns, neurs)])
     if kind == "serial":
         if case.get("names_default"):
             return Serial(conns[0], neurs[0], mk_tr(case.get("tr")))
@@ -165,7 +204,7 @@ def snap_layer(case, layer):
 
 
 def T(js):
-    return torch.tensor(js["el"], dtype=torch.float64).reshape(js["sh"])
+    return torch.tensor(js["el"], dtype=fdt()).reshape(js["sh"])
 
 
 def nkw_of(k):
@@ -191,10 +230,14 @@ class Twin:
         self.B, self.dt = case["B"], case["dt"]
         self.cspec = [copy.deepcopy(s) for s in case["conns"]]
         self.nspec = [copy.deepcopy(s) for s in case["neurs"]]
-        self.conns = [build_conn(s, self.B, self.dt) for s in self.cspec]
-        self.neurs = [build_neuron(s, self.B, self.dt) for s in self.nspec]
+        self.cast = cast_of(case)
+        self.conns = [self.casted(build_conn(s, self.B, self.dt)) for s in self.cspec]
+        self.neurs = [self.casted(build_neuron(s, self.B, self.dt)) for s in self.nspec]
         self.prev_fb = None
         KEEP.extend(self.conns + self.neurs)
+
+    def casted(self, m):
+        return m if self.cast is None else m.to(self.cast)
 
     def cidx(self, name):
         return next(i for i, s in enumerate(self.cspec) if s["name"] == name)
@@ -212,14 +255,14 @@ class Twin:
                 f.bias = c.bias.detach().clone()
             if c.delay is not None:
                 f.delay = c.delay.detach().clone()
-            nc.append(f)
+            nc.append(self.casted(f))
         nn_ = []
         for s, n in zip(self.nspec, self.neurs):
             f = build_neuron(s, self.B, self.dt)
             f.train(n.training)
             if adapt_attr(n) and keep_adapt:
                 set_adapt(f, get_adapt(n).detach().clone())
-            nn_.append(f)
+            nn_.append(self.casted(f))
         self.conns, self.neurs = nc, nn_
         KEEP.extend(nc + nn_)
 
@@ -259,6 +302,14 @@ class Twin:
             tr = mk_tr(self.case.get("tr")) or idt
             z = self.neurs[0](tr(y), **(nkw_of(op[2]) or {}))
             return {"out": {self.nspec[0]["name"]: z}, "mid": {self.cspec[0]["name"]: y}}
+        if kind == "parallel":
+            mid, out = {}, {}
+            nkw = {k: nkw_of(v) for k, v in op[2]}
+            for name, xs in op[1]:
+                y = self.conns[self.cidx(name)](*[T(t) for t in xs])
+                mid[name] = y
+                out[name] = self.neurs[self.nidx(name)](y, **(nkw.get(name) or {}))
+            return {"out": out, "mid": mid}
         if kind == "biclique":
             mid = {}
             for name, xs in op[1]:
@@ -292,6 +343,14 @@ class Twin:
             return {"out": {self.nspec[0]["name"]: zff, self.nspec[1]["name"]: zfb},
                     "mid": {n[0]: yff, n[2]: yfb, n[1]: ylat}}
         raise AssertionError(kind)
+
+
+DTYPES = {"float32": torch.float32, "float64": torch.float64}
+
+
+def cast_of(case):
+    d = case.get("dtype") or {}
+    return DTYPES[d["cast"]] if d.get("cast") else None
 
 
 def teq(a, b):
@@ -350,10 +409,16 @@ def check_state(case, layer, twin, i, fails, after):
     """every state variable of the layer's components equals that of the reference's components"""
     for s, c in zip(twin.cspec, twin.conns):
         lc = layer.get_connection(nm(s["name"]))
-        a, b = lc.synapse.spike_, c.synapse.spike_
-        if tuple(a.value.shape) != tuple(b.value.shape) or not torch.equal(a.value, b.value) or a.pointer != b.pointer:
-            fails.append({"step": i, "what": f"synaptic history / pointer of connection {s['name']} {after}",
-                          "signature": sig(case, "clear_synapse" if after.startswith("after clear") else "state_synapse")})
+        ra, rb = records(lc.synapse), records(c.synapse)
+        for rn in rb:
+            a, b = ra.get(rn), rb[rn]
+            if a is None or tuple(a.value.shape) != tuple(b.value.shape) or a.value.dtype != b.value.dtype or \
+                    a.value.device != b.value.device or not torch.equal(a.value, b.value) or a.pointer != b.pointer:
+                fails.append({"step": i, "what": f"record {rn} (history / pointer / dtype) of the synapse of connection "
+                              f"{s['name']} {after} differs from the reference "
+                              f"({'freshly built' if after.startswith('after clear') else 'standalone'} component)",
+                              "signature": sig(case, "clear_synapse" if after.startswith("after clear") else "state_synapse",
+                                               record=rn)})
         if not torch.equal(lc.weight, c.weight) or (c.bias is not None and not torch.equal(lc.bias, c.bias)) or \
                 (c.delay is not None and not torch.equal(lc.delay, c.delay)):
             fails.append({"step": i, "what": f"learned parameters of connection {s['name']} changed {after}",
@@ -364,6 +429,7 @@ def check_state(case, layer, twin, i, fails, after):
             a, b = getattr(ln, nmv), getattr(n, nmv)
             if tuple(a.shape) != tuple(b.shape) or not teq(a, b):
                 why = (f"shape {tuple(a.shape)}, expected {tuple(b.shape)}" if tuple(a.shape) != tuple(b.shape) else
+                       f"dtype {a.dtype}, expected {b.dtype}" if a.dtype != b.dtype else
                        f"values {a.reshape(-1).tolist()[:6]}, expected {b.reshape(-1).tolist()[:6]}")
                 fails.append({"step": i, "what": f"{nmv} of neuron group {s['name']} {after} differs from the reference "
                               f"({'freshly built' if after.startswith('after clear') else 'standalone'} component): {why}",
@@ -395,14 +461,14 @@ def apply_learn(case, layer_or_twin, op, is_twin):
         getn = lambda name: layer_or_twin.get_neuron(nm(name))
     if k == "learnc":
         c = getc(op[1])
-        c.weight = torch.tensor(op[2], dtype=torch.float64)
+        c.weight = torch.tensor(op[2], dtype=c.weight.dtype)
         if op[3] is not None:
-            c.bias = torch.tensor(op[3], dtype=torch.float64)
+            c.bias = torch.tensor(op[3], dtype=c.weight.dtype)
     elif k == "train":
         getn(op[1]).train(bool(op[2]))
     elif k == "adapt":
         n = getn(op[1])
-        set_adapt(n, torch.tensor(op[2], dtype=torch.float64).reshape(get_adapt(n).shape))
+        set_adapt(n, torch.tensor(op[2], dtype=get_adapt(n).dtype).reshape(get_adapt(n).shape))
     else:
         raise AssertionError(k)
 
@@ -418,6 +484,8 @@ def expected_constructor_error(case):
         pairs = [(0, 0)]
     elif kind == "biclique":
         pairs = [(i, j) for i in range(len(cn)) for j in range(len(nn))]
+    elif kind == "parallel":
+        pairs = [(i, i) for i in range(len(cn))]
     else:
         pairs = [(0, 0)] + ([(1, 1), (2, 0)] if case.get("trainable") else [])
     return any(list(case["conns"][i]["out"]) != list(case["neurs"][j]["shape"]) for i, j in pairs)
@@ -440,6 +508,31 @@ def classify(case, fails_doc, fails_attr):
 
 
 def run_case(case):
+    """torch's default dtype is float64 (common.py) unless the case asks for another one ("dtype": {"default": ...,
+    "cast": ...}: build everything under that default, then cast the layer - and the references - with .to(cast))"""
+    old = torch.get_default_dtype()
+    d = (case.get("dtype") or {}).get("default")
+    try:
+        if d:
+            torch.set_default_dtype(DTYPES[d])
+        return _run_case(case)
+    finally:
+        torch.set_default_dtype(old)
+
+
+def state_dtypes(case, layer):
+    out = {}
+    for sp in case["neurs"]:
+        n = layer.get_neuron(nm(sp["name"]))
+        out[("neuron", sp["name"], "voltage")] = (n.voltage.dtype, n.voltage.device)
+        out[("neuron", sp["name"], "refrac")] = (n.refrac.dtype, n.refrac.device)
+    for sp in case["conns"]:
+        for rn, r in records(layer.get_connection(nm(sp["name"])).synapse).items():
+            out[("connection", sp["name"], rn)] = (r.value.dtype, r.value.device)
+    return out
+
+
+def _run_case(case):
     B, dt = case["B"], case["dt"]
     fails = []
     try:
@@ -447,6 +540,8 @@ def run_case(case):
         neurs = [build_neuron(s, B, dt) for s in case["neurs"]]
         KEEP.extend(conns + neurs)
         layer = build_layer(case, conns, neurs)
+        if cast_of(case) is not None:
+            layer = layer.to(cast_of(case))
         KEEP.append(layer)
     except Exception as e:  # noqa
         c = exc_code(e)
@@ -484,7 +579,7 @@ def run_case(case):
                         z, y = (r if cap else (r, None))
                         out = [enc_t(z), enc_t(y)] if cap else [enc_t(z)]
                         g_out, g_mid = {nm(nn[0]): z}, ({nm(cn[0]): y} if cap else None)
-                    elif kind == "biclique":
+                    elif kind in ("biclique", "parallel"):
                         cap = op[3]
                         ins = {nm(name): tuple(T(t) for t in xs) for name, xs in op[1]}
                         nkw = {nm(name): nkw_of(v) for name, v in op[2] if v is not None}
@@ -515,6 +610,10 @@ def run_case(case):
                         pass
                     raise
 
+                if g_mid is not None and isinstance(g_mid, dict) and any(g_mid is o for o in (g_out,)):
+                    fails.append({"step": i, "what": "capture_intermediate: the captured connection outputs ARE the dict of "
+                                  "neuron outputs (same object)", "signature": sig(case, "captured_is_outputs")})
+
                 def chk(tw, fl):
                     check_fwd(case, layer, tw, op, g_out, g_mid, i, fl)
                     check_state(case, layer, tw, i, fl, "after forward")
@@ -534,6 +633,7 @@ def run_case(case):
                     if adapt_attr(ln):
                         before[sp["name"]] = get_adapt(ln).detach().clone()
                 wbefore = {sp["name"]: layer.get_connection(nm(sp["name"])).weight.detach().clone() for sp in case["conns"]}
+                dbefore = state_dtypes(case, layer)
                 try:
                     if kind == "recurrent":
                         layer.clear(clear_feedback=cf, submodules=sub, **kw)
@@ -560,6 +660,10 @@ def run_case(case):
                     if not kept and bool(a1.abs().sum() > 0):
                         fails.append({"step": i, "what": f"clear(keep_adaptations=False) left adaptations of the {cls} group {name}",
                                       "signature": sig(case, "clear_kept_adaptations", neuron=cls)})
+                for key, dd in state_dtypes(case, layer).items():
+                    if dd != dbefore.get(key):
+                        fails.append({"step": i, "what": f"clear() changed dtype/device of {key[2]} of {key[0]} {key[1]}: "
+                                      f"{dbefore.get(key)} -> {dd}", "signature": sig(case, "clear_changed_dtype", what=key[2])})
                 for name, w0 in wbefore.items():
                     if not torch.equal(layer.get_connection(nm(name)).weight, w0):
                         fails.append({"step": i, "what": f"clear() changed the weights of connection {name}",
